@@ -188,6 +188,43 @@ def do_op(w, op, k, nfail=1, second=-1):
         seen[i] = sorted(summarize(r) for r in o.take_inbox() if not is_harness_traffic(r))
     if newc is not None:
         seen["new"] = sorted(summarize(r) for r in caller_other if not is_harness_traffic(r))
+        # unique names are never reused: a second newcomer says Hello while the first one - whatever its Hello
+        # returned - is still connected; it must get a fresh name (the H1 hook additionally asserts that no two
+        # registered connections share a name)
+        res_first = w.result()
+        first_name = replies[0].msg.body[0] if replies and replies[0].msg.type == 2 and replies[0].msg.body else None
+        try:
+            c2 = client.Client(w.daemon.sock, w.clock)
+            c2.auth()
+            r2 = c2.hello()
+            second_name = r2.msg.body[0] if r2.msg.type == 2 and r2.msg.body else None
+            c2.close()
+        except (client.Closed, client.Timeout):
+            second_name = None
+        known = set(o.unique for o in w.clients)
+        if second_name is not None and (second_name == first_name or second_name in known):
+            seen["REUSED-UNIQUE-NAME"] = [second_name]
+        # wait (bounded) until the bus has processed the second newcomer's disconnect, so that the state dump
+        # taken afterwards does not depend on timing
+        if second_name is not None and w.clients:
+            deadline = time.time() + client.WATCHDOG
+            needle = "C %s " % second_name.decode()
+            while time.time() < deadline:
+                try:
+                    st = w.state()
+                except (client.Closed, client.Timeout):
+                    break
+                if st is None or not any(ln.startswith(needle) for ln in st):
+                    break
+                time.sleep(0.002)
+        # drop what the existing clients saw of the second newcomer (NameOwnerChanged of its connect / disconnect)
+        for i, o in enumerate(w.clients):
+            try:
+                o.barrier()
+            except client.Closed:
+                pass
+            o.take_inbox()
+        return replies, seen, res_first, newc
     return replies, seen, w.result(), newc
 
 
@@ -345,6 +382,10 @@ def run_case(b, rundir, rng, part, cid, max_k=None, pair_limit=0):
             part.evaluations += 1
             rc = reply_class(replies)
             wk = dict(wit, k=k, nfail=nfail, second=second, replies=repr(rc), result=res)
+            if "REUSED-UNIQUE-NAME" in seen:
+                part.violation("%s:unique-name-reused-after-failed-hello" % PROP,
+                               "a connection that said Hello after a Hello that failed under OOM was given a unique name that is in use", wk)
+                seen.pop("REUSED-UNIQUE-NAME")
             part.count("faults:single" if (nfail == 1 and second < 0) else ("faults:burst" if second < 0 else "faults:pair"))
             if newc is not None:
                 # a Hello that failed leaves an unregistered connection behind: close it and let the bus notice
@@ -455,7 +496,7 @@ def run(tier, seed, replay=None, scale=1.0):
         part.sig("replay", 0)
         r.merge(part)
         return r.finish()
-    total = int((160 if tier == "quick" else 4000) * scale)
+    total = int((128 if tier == "quick" else 4000) * scale)
     per = max(1, total // 16)
     pair_limit = 45 if tier == "quick" else 80
     for part in report.run_sharded(_worker, [(seed, i, per, None, pair_limit) for i in range(16)]):
